@@ -1102,7 +1102,7 @@ fn classify_fault(class: &str, word: &[Op], fault_op: Option<usize>, call: &Call
     };
     let opn = match op {
         Some(Op::Merge) => "merge",
-        Some(Op::Reopen) => "reopen",
+        Some(Op::Reopen) | Some(Op::ReopenAs(_)) => "reopen",
         Some(Op::Set(_, 4)) | Some(Op::Set(_, 5)) => "big-set",
         Some(Op::Set(..)) => "set",
         Some(Op::Del(_)) => "del",
